@@ -295,6 +295,7 @@ fn main() {
         std::process::exit(real_main(&property, seed, tier, replay, runs_override, mode == "dump-logs"));
     }
     println!("VERIF_SEED={seed} property={property} tier={} sim=pool mode=fake", tier.as_str());
+    let _ = exec::FOCUS_PREFIX.set(classes_of(&property).to_string());
 
     if let Some(path) = replay {
         let rf: ReplayFile = serde_json::from_str(&std::fs::read_to_string(&path).unwrap_or_else(|e| harness_error(&format!("cannot read {path}: {e}")))).unwrap_or_else(|e| harness_error(&format!("cannot parse {path}: {e}")));
@@ -377,6 +378,7 @@ fn main() {
         tot.sim_ns += out.sim_time_ns as u128;
         tot.probes.merge(&out.probes);
         tot.fired.merge(&out.faults_fired);
+        tot.foreign.merge(&out.foreign);
         tot.states.extend(out.states.iter().copied());
         tot.triples.extend(out.triples.iter().copied());
         let hh = history_hash(&out.steps);
